@@ -126,6 +126,7 @@ use std::collections::BTreeMap;
 broadcast use {axiom_into_string_str, axiom_string_key_obeys_cmp_spec};
 
 //@ include units/C19/loader_types.rs
+//@ include units/C19/order_spec.rs
 //@ include units/C19/image_spec.rs
 //@ include units/C19/entries_spec.rs
 //@ include units/C19/symbols_spec.rs
